@@ -102,6 +102,32 @@ theorem expire_plain_sets (c : Ctx) (s s' : State) (key name n : Bytes) (newT : 
   rw [run_setExpiry_some c s s' key (some newT) true _ h]
   rfl
 
+/-- **GETEX k PERSIST makes the key permanent** (repaired in /repo by a `fix:` commit; before it the option was
+    never recognised and the deadline stayed). For every state and every live key with a printable value: after
+    `GETEX k PERSIST` no deadline is reported for the key, and at **every** later clock reading the key is still
+    served with its value — it never expires. -/
+theorem getex_persist_never_expires (c : Ctx) (s : State) (k : Bytes) (e : Entry) (t : Bytes)
+    (h : s.lookup c.db k = some e) (hlive : e.expired c.now = false) (hv : e.val.fmtV = some t) (later : Int) :
+    let s' := ((handleGetex c [b "getex", k, b "persist"]).run c s).1
+    getExpiry s' c.db k = none ∧
+    getValues { c with now := later } s' [k] = (s', [e.val]) := by
+  have hrun : ((handleGetex c [b "getex", k, b "persist"]).run c s).1.lookup c.db k = some ⟨e.val, none⟩ := by
+    obtain ⟨s', hr, h1, _, _⟩ := handleGetex_persist_run c s k (b "persist") [] e t h hlive hv
+      persist_tokens.1 persist_tokens.2.1 (by simp)
+    rw [hr]; exact h1
+  intro s'
+  refine ⟨?_, ?_⟩
+  · simp only [getExpiry]
+    rw [show s'.lookup c.db k = _ from hrun]
+  · exact getValues_live { c with now := later } s' k ⟨e.val, none⟩ hrun (by simp [Entry.expired])
+
+/-- non-vacuity: the deadline 1500 is gone after GETEX PERSIST at 1000, and the key is served at 999999 -/
+example :
+    let c : Ctx := { db := 0, now := 1000 }
+    let s : State := { dbs := [(0, ⟨[(b "k", ⟨.str (b "v"), some 1500⟩)], [b "k"]⟩)], mem := 57 }
+    let s' := ((handleGetex c [b "getex", b "k", b "PERSIST"]).run c s).1
+    getExpiry s' 0 (b "k") = none ∧ (getValues { c with now := 999999 } s' [b "k"]).2 = [Val.str (b "v")] := by decide
+
 /-! ### where "unobservable once expired" fails (model witnesses, class `expired-key-still-exists`) -/
 
 /-- TTL on a key whose deadline has passed answers 0 instead of -2 -/
